@@ -152,6 +152,7 @@ func init() {
 					src = newStrSource()
 				},
 				Run: func(c *harness.Ctx, k int) {
+					hooksAlternate(k) // with the poison off, a stale alias shows up when a LATER call writes through it (recheckKept)
 					switch {
 					case k < sys.n():
 						if harness.RaceEnabled {
@@ -203,6 +204,31 @@ func init() {
 	})
 }
 
+// earlier documents of this worker, re-examined after later calls: a call may leave a time bomb
+// (e.g. a pooled buffer aliasing the caller's array) that only a LATER evaluation sets off
+type keptDoc struct {
+	doc        interface{}
+	snap, text string
+	json       string
+}
+
+var keptDocs [8]keptDoc
+var keptNext int
+
+func recheckKept(c *harness.Ctx, laterPath string) {
+	for i := range keptDocs {
+		k := &keptDocs[i]
+		if k.doc == nil {
+			continue
+		}
+		if now := snapshot(k.doc); now != k.snap {
+			c.Violation("mutated-later "+k.text+"\x00"+k.json, "a document evaluated earlier changed during a LATER, unrelated retrieval (the earlier call left an alias to caller memory behind)",
+				map[string]interface{}{"earlier_path": k.text, "earlier_document": k.json, "later_path": laterPath, "before": k.snap, "after": now})
+			k.doc = nil
+		}
+	}
+}
+
 func runC04(c *harness.Ctx, d *diffCase) {
 	hasFilter := strings.Contains(d.Text, "?(")
 	for mode := 0; mode < 2; mode++ {
@@ -244,6 +270,11 @@ func runC04(c *harness.Ctx, d *diffCase) {
 			if c.WantSample() && c.K%13 == 0 {
 				c.Sample(map[string]interface{}{"path": d.Text, "document": short(d.Doc, 200), "accessor_mode": mode == 1, "outcome": short(o.String(), 120)})
 			}
+		}
+		recheckKept(c, d.Text)
+		if before == after && o.Panic == nil {
+			keptDocs[keptNext%len(keptDocs)] = keptDoc{doc: src, snap: after, text: d.Text, json: d.Doc}
+			keptNext++
 		}
 		if before != after {
 			c.Violation("mutated "+key, "the source document changed during retrieval (value, leaf type or container identity)",
